@@ -273,6 +273,10 @@ class FuncTranslator:
             return ('[]', 'list[?]')
         if len(items) == 1:
             return ('[%s]' % items[0][0], t_list(items[0][1]))
+        if len(items) >= 3 and len({t for _, t in items}) == 1 and items[0][1] in ('int', 'str') \
+                and all(isinstance(x, ast.Constant) or (isinstance(x, ast.UnaryOp) and isinstance(x.operand, ast.Constant)) for x in e.elts):
+            # a literal table (weights, alphabets): a homogeneous sequence
+            return ('[' + ', '.join(v for v, _ in items) + ']', t_list(items[0][1]))
         code = '(' + ', '.join(v for v, _ in items) + ')'
         self.tuple_lits[code] = items
         return (code, t_tuple([t for _, t in items]))
@@ -463,11 +467,11 @@ class FuncTranslator:
                 return ('(%s * %s)' % (l, r), 'int')
             if isinstance(op, ast.Mod):
                 if isinstance(e.right, ast.Constant) and isinstance(e.right.value, int) and e.right.value > 0:
-                    return ('(Int.emod %s %s)' % (par(l), par(r)), 'int')
+                    return ('(%s %% %s)' % (par(l), par(r)), 'int')
                 return ('(← Py.pymod %s %s)' % (par(l), par(r)), 'int')
             if isinstance(op, ast.FloorDiv):
                 if isinstance(e.right, ast.Constant) and isinstance(e.right.value, int) and e.right.value > 0:
-                    return ('(Int.fdiv %s %s)' % (par(l), par(r)), 'int')
+                    return ('(%s / %s)' % (par(l), par(r)), 'int')
                 return ('(← Py.pyfloordiv %s %s)' % (par(l), par(r)), 'int')
             if isinstance(op, ast.Pow):
                 return ('(← Py.pypow %s %s)' % (par(l), par(r)), 'int')
